@@ -69,7 +69,7 @@ def check(case):
         all_names = [s.name for f in run1.features for s in f.walk_scenarios()]
         listed = set(n for _l, n in expected)
         for name, klass in sorted(runcheck.status_floor(ref, prog).items()):
-            if all_names.count(name) == 1 and name not in listed:
+            if all_names.count(name) == 1 and (name in listed) != (klass != "passed"):
                 res.fail("C17.status-vs-run", "scenario %r ended in the %s class in run 1 (reference model) but its "
                          "final status does not say so" % (name, klass))
         lines = None
